@@ -271,8 +271,17 @@ func checkC11(c C11Case) (vs []*Violation) {
 			if !ok {
 				continue
 			}
-			if err := ct.Remove(s.ws); err != nil {
-				vs = append(vs, viol("", "%s: Remove returned %v", where, err))
+			var rpan interface{}
+			func() {
+				defer func() { rpan = recover() }()
+				if err := ct.Remove(s.ws); err != nil {
+					vs = append(vs, viol("", "%s: Remove returned %v", where, err))
+				}
+			}()
+			if rpan != nil {
+				vs = append(vs, viol("", "%s: Remove of root %q from %v panicked: %v", where, s.root, order, rpan))
+				st.Case(c, nontrivial, append(labels, "ended_by_remove_panic")...)
+				return vs
 			}
 			remove("s" + strconv.Itoa(op.Svc))
 			sawRemove = true
